@@ -73,6 +73,16 @@ def parse_number(string):
         return num
     return error.VALUE
 
+def parse_integer(string):
+    """
+    parse_number for arguments that index, slice or count: a whole number that
+    arrives as a float (the result of 4/2, a cell holding 3.0) is that integer
+    """
+    num = parse_number(string)
+    if isinstance(num, float) and num.is_integer():
+        return int(num)
+    return num
+
 def parse_complex(string):
     if string is None:
         return 0
